@@ -66,7 +66,7 @@ class Inconclusive(Exception):
 
 
 class Spec:
-    def __init__(self, role, fn, expect, kind="session", auth=True, chan=False, mute="raw", timeouts=(None,), ready=None, moments=("call-first", "loss-first", "together"), callers=1, fill=False):
+    def __init__(self, role, fn, expect, kind="session", auth=True, chan=False, mute="raw", timeouts=(None,), ready=None, moments=("call-first", "loss-first", "together"), callers=1, fill=False, service=False):
         self.role = role
         self.fn = fn
         self.expect = expect  # (file basename, function) that must be on the blocked caller's stack
@@ -79,6 +79,7 @@ class Spec:
         self.moments = moments
         self.callers = callers
         self.fill = fill
+        self.service = service  # tested client is a ServiceRequestingTransport (auth waits for SERVICE_ACCEPT itself)
 
 
 def _saw(ptype):
@@ -129,6 +130,10 @@ def c_auth_password(env, t):
     if t is not None:
         env.tested.auth_timeout = t
     return env.tested.auth_password("u", "pw")
+
+
+def c_auth_none(env, t):
+    return env.tested.auth_none("u")
 
 
 def c_auth_publickey(env, t):
@@ -191,6 +196,8 @@ CALLS = {
     "open_session": Spec("client", c_open_session, ("transport.py", "open_channel"), timeouts=T5, ready=_saw(90)),
     "auth_password": Spec("client", c_auth_password, ("auth_handler.py", "wait_for_response"), auth=False, timeouts=T5, ready=_saw(5)),
     "auth_publickey": Spec("client", c_auth_publickey, ("auth_handler.py", "wait_for_response"), auth=False, timeouts=T5, ready=_saw(5)),
+    "svc_auth_password": Spec("client", c_auth_password, ("transport.py", "ensure_session"), auth=False, timeouts=T5, ready=_saw(5), service=True),
+    "svc_auth_none": Spec("client", c_auth_none, ("transport.py", "ensure_session"), auth=False, ready=_saw(5), service=True),
     "auth_password_event": Spec("client", c_auth_password_event, ("c13.py", "_wait_event"), auth=False, ready=_saw(5), moments=CF),
     "global_request": Spec("client", c_global_request, ("transport.py", "global_request"), ready=_saw(80)),
     "renegotiate_keys": Spec("client", c_renegotiate, ("transport.py", "renegotiate_keys"), mute="hold", ready=lambda env: env.rx.n_pending() >= 1),
@@ -452,7 +459,7 @@ class Env:
             self.bridge = Bridge(self.tmpdir, link)
             csock = self.bridge.proxy
         if sp.role == "client":
-            tc = peers.VTransport(csock)
+            tc = (peers.VServiceTransport if sp.service else peers.VTransport)(csock)
             ts = peers.Puppet(link.b, default_window_size=32768)
             self.tested, self.peer = tc, ts
             self.rx, self.tx = link.ba, link.ab
